@@ -332,6 +332,8 @@ class BackupNode(Entity):
         self._replications_applied = 0
         self._backup_reads = 0
         self._last_applied_seq = 0
+        # Highest primary sequence applied per key (replication messages may be reordered)
+        self._applied_seq_by_key: dict[str, int] = {}
 
     def downstream_entities(self) -> list[Entity]:
         return [self._primary]
@@ -375,11 +377,14 @@ class BackupNode(Entity):
         seq = metadata.get("seq", 0)
         ack_future: SimFuture | None = metadata.get("ack_future")
 
-        # Apply locally
-        yield from self._store.put(key, value)
+        # Apply locally -- unless a newer write to this key has already been
+        # applied (messages can overtake each other on the network).
+        if seq >= self._applied_seq_by_key.get(key, 0):
+            self._applied_seq_by_key[key] = seq
+            yield from self._store.put(key, value)
 
         self._replications_applied += 1
-        self._last_applied_seq = seq
+        self._last_applied_seq = max(self._last_applied_seq, seq)
 
         # Resolve ack future if present (for SEMI_SYNC/SYNC)
         if ack_future is not None:
